@@ -1392,9 +1392,6 @@ fn exec_op<'a>(cx: &'a Cx, op: &'a Op, env: &mut Env<'a>) -> &'static str {
             };
             let slot = if is_tp {
                 let active = ts(|t| t.tp.last().copied());
-                // `AssertInternal` does not forward `open_disabled` (it falls back to
-                // `open_push(Empty)`), so a disabled frame made through it never sees the ids
-                let ids = if *h == H::DynAssert && *kind == FK::Disabled { &None } else { ids };
                 match ids {
                     Some((t, sp, _)) => {
                         let span = SpanId::from_u64(*sp).unwrap();
